@@ -21,7 +21,7 @@ let show_xres = function
   | XRes RFail -> "fail"
   | XDone -> "done"
 
-let check (fields : sexp list) : verdict * string option =
+let check_gen (with_layout : bool) (fields : sexp list) : verdict * string option =
   let limit = z_of (field1 "limit" fields) in
   let stream = b_of (field1 "stream" fields) in
   let ops = List.map xop_of (field "ops" fields) in
@@ -47,10 +47,15 @@ let check (fields : sexp list) : verdict * string option =
         Printf.sprintf "(%d %d %d %d)" idx (o - base) l c end) m in
     if mres <> res then
       (Diff (Printf.sprintf "results differ\n    model: %s\n    impl:  %s" (String.concat " " mres) (String.concat " " res)), None)
-    else if mlay <> layout then
+    else if with_layout && mlay <> layout then
       (Diff (Printf.sprintf "slice layout of Msg differs\n    model: %s\n    impl:  %s" (String.concat " " mlay) (String.concat " " layout)), None)
     else (Ok_, None)
   end
+
+(* C18 (memory handed out is never reused) compares where every Msg lies in the allocated chunks; C03 (what is parsed)
+   compares the results of the calls only: how the Reader lays out its memory is not C03's business *)
+let check = check_gen true
+let check_results = check_gen false
 
 let nontrivial (fields : sexp list) : string option =
   if List.length (field "ops" fields) >= 2 then
